@@ -59,12 +59,16 @@ Inductive spelling (d : adim) (k : nat) : ident -> Prop :=
 | sp_eid : spelling d k (nth k (raw_ids d) INone)
 | sp_eidstr z : nth k (raw_ids d) INone = IInt z -> spelling d k (IStr (dec z)).
 
-(* a reference: to item k, or to nothing *)
+(* a reference: to item k, or to nothing (None / null itself is a reference to nothing) *)
 Definition ref (d : adim) (ok : option nat) (x : ident) : Prop :=
   match ok with
   | Some k => k < List.length (d_items d) /\ spelling d k x
-  | None => stale d x /\ x <> INone
+  | None => stale d x
   end.
+
+(* element ids and sub-variable ids are never null (JSON): under this condition the cascade is
+   total and None is a fixed point of it *)
+Definition ids_not_none (d : adim) : Prop := ~ In INone (raw_ids d) /\ ~ In INone (subvar_ids d).
 Definition oalias (d : adim) (ok : option nat) : ident :=
   match ok with Some k => nth_alias d k | None => INone end.
 
